@@ -196,6 +196,10 @@ def handshake_histories(rng, props, n, full=False):
                     sc.sdeliver(nm, as_=rep)
                     if rng.random() < 0.8:
                         sc.cdeliver(c, rep)
+                    if c.startswith("x_") and rng.random() < 0.7:
+                        # the holder of an invalid token does what it can with whatever the server answered: a response sealed
+                        # with that token's keys (under the server's protocol id) echoing the reply
+                        sc.add(a="scraft", kind="Response", tok=clients[c][0], seq=rng.choice([0, 1, 7]), chal_from=rep, **{"from": clients[c][1]})
             elif r < 0.40:
                 sc.supdate(rng.choice([100, 250, 1000]))
             elif r < 0.50:
